@@ -66,6 +66,7 @@ func PairBases() []Base {
 		{"tuple-multi-line", "a = [\n  1,\n  2,\n]\n"},
 		{"object-single-line", "a = {}\nb = { x = 1 }\nc = { x = 1, y : 2 }\nd = { \"q\" = 1, (c) = 2, foo.bar = 3 }\n"},
 		{"object-multi-line", "a = {\n  x = 1\n  y : 2\n  \"z\" = 3,\n  w = 4\n}\n"},
+		{"object-multi-line-keys", "a = {\n  \"q\" = 1\n  (c) = 2\n  foo.bar = 3\n  x = 4\n}\n"},
 		{"nested-multi-line", "a = {\n  x = [\n    1,\n    {\n      y = 2\n    },\n  ]\n}\n"},
 		// --- for expressions
 		{"for-tuple", "a = [for x in l : x]\nb = [for i, x in l : i if x > 1]\n"},
@@ -89,6 +90,7 @@ func PairBases() []Base {
 		{"heredoc-in-block", "b {\n  a = <<EOT\nx\nEOT\n  c = 1\n}\n"},
 		// --- comments in every slot
 		{"comments-attr", "# lead\na = 1 # line\n// lead2\nb = 2 // line2\n/* block */ c = 3 /* inline */\n"},
+		{"comments-aligned", "a = 1 + 2 # c1\nbb = f(3, 4) # c2\nc = 5\n"},
 		{"comments-in-expr", "a = [ # c1\n  1, // c2\n  /* c3 */ 2 /* c4 */,\n]\n"},
 		{"comments-in-attr", "a /* c1 */ = /* c2 */ 1 /* c3 */ + /* c4 */ 2\n"},
 		{"comments-in-traversal", "a = foo /*c*/ . /*d*/ bar /*e*/ [ /*f*/ 0 /*g*/ ] /*h*/\n"},
